@@ -1050,6 +1050,7 @@ func famStreams(dir string, seed int64, tier string) {
 	streamsSharedToken(repC, "C14")
 	streamsSharedToken(repP, "C13")
 	apiFilterStale(repP)
+	apiDerefResolverBoth(repP)
 	apiConcatAdvancesInPlace(repC)
 	apiFilterOverFaults(repP)
 	apiTreeIterAfterEdit(repP)
